@@ -340,3 +340,38 @@ pub fn c04_td_range_from_indefinite() {
     assert!(matches!(r, Ok(ref v) if v.start == u16::from_be_bytes(a)));
     assert!(d.position() == 5, "position is not at the end of the item (break not consumed?)");
 }
+
+/// Float accessors on any head: Ok only on a float item of acceptable width (f16/f32/f64 per
+/// C12's widening rule); every other item is an error, truncation is end-of-input.
+#[cfg(feature = "half")]
+#[kani::proof]
+pub fn c04_float_accessors_shape() {
+    let (buf, len) = any_buf::<9>();
+    let s = &buf[..len];
+    let b0 = if len > 0 { Some(buf[0]) } else { None };
+    let mut d = Decoder::new(s);
+    let r = d.f64();
+    match b0 {
+        Some(0xf9) if len >= 3 => assert!(r.is_ok() && d.position() == 3),
+        Some(0xfa) if len >= 5 => assert!(r.is_ok() && d.position() == 5),
+        Some(0xfb) if len >= 9 => assert!(matches!(r, Ok(x) if x.to_bits() == u64::from_be_bytes([buf[1], buf[2], buf[3], buf[4], buf[5], buf[6], buf[7], buf[8]])) && d.position() == 9),
+        Some(0xf9) | Some(0xfa) | Some(0xfb) | None => assert!(matches!(&r, Err(e) if e.is_end_of_input()), "truncated float: not end-of-input"),
+        Some(_) => assert!(r.is_err(), "f64() accepted a non-float item"),
+    }
+    let mut d = Decoder::new(s);
+    let r = d.f32();
+    match b0 {
+        Some(0xf9) if len >= 3 => assert!(r.is_ok() && d.position() == 3),
+        Some(0xfa) if len >= 5 => assert!(matches!(r, Ok(x) if x.to_bits() == u32::from_be_bytes([buf[1], buf[2], buf[3], buf[4]])) && d.position() == 5),
+        Some(0xf9) | Some(0xfa) | None => assert!(matches!(&r, Err(e) if e.is_end_of_input())),
+        Some(_) => assert!(r.is_err(), "f32() accepted a non-f16/f32 item"),
+    }
+    let mut d = Decoder::new(s);
+    let r = d.f16();
+    match b0 {
+        Some(0xf9) if len >= 3 => assert!(r.is_ok() && d.position() == 3),
+        Some(0xf9) | None => assert!(matches!(&r, Err(e) if e.is_end_of_input())),
+        Some(_) => assert!(r.is_err(), "f16() accepted a non-f16 item"),
+    }
+    kani::cover!(b0 == Some(0xfb) && len == 9);
+}
